@@ -34,6 +34,8 @@ fn exec(line: &str, model: &mut Model) -> Option<Exec> {
     }
 }
 
+static STOP_FLAG: std::sync::atomic::AtomicBool = std::sync::atomic::AtomicBool::new(false);
+
 fn main() {
     install_panic_hook();
     let args: Vec<String> = std::env::args().collect();
@@ -66,6 +68,7 @@ fn main() {
     // longer than it should) is a finding, not something to wait for. Per operation: the op line is left in
     // BP7H_LASTLINE and the process aborts (the check script reports that line). Whole run: exit status 97.
     static OP_START: std::sync::Mutex<Option<(std::time::Instant, String)>> = std::sync::Mutex::new(None);
+    let _ = &STOP_FLAG;
     {
         let per_op = std::env::var("BP7H_OP_SECS").ok().and_then(|x| x.parse().ok()).unwrap_or(180u64);
         let total = std::env::var("BP7H_MAX_SECS").ok().and_then(|x| x.parse().ok()).unwrap_or(if tier == "thorough" { 5 * 3600 } else { 2400u64 });
@@ -77,10 +80,11 @@ fn main() {
                     if st.elapsed().as_secs() > per_op { note_line(line); eprintln!("watchdog: the operation did not return within {} s", per_op); std::process::abort(); }
                 }
             }
-            if t0.elapsed().as_secs() > total { eprintln!("watchdog: the run did not finish within {} s", total); std::process::exit(97); }
+            if t0.elapsed().as_secs() > total && !STOP_FLAG.swap(true, std::sync::atomic::Ordering::SeqCst) { eprintln!("watchdog: the run did not finish within {} s; remaining operations are skipped", total); }
         });
     }
     let mut emit = |ctx: &mut Ctx, rep: &mut Report, line: String| {
+        if STOP_FLAG.load(std::sync::atomic::Ordering::Relaxed) { return; }
         if let Ok(mut g) = OP_START.lock() { *g = Some((std::time::Instant::now(), if line.len() > 4096 { line[..line.char_indices().map(|(i, _)| i).take_while(|i| *i <= 4096).last().unwrap_or(0)].to_string() } else { line.clone() })); }
         match exec(&line, &mut ctx.model) {
             Some(e) => {
@@ -145,4 +149,6 @@ fn main() {
     compare_batch(&mut ctx, &mut rep, &mut batch);
     let js = rep.to_json();
     std::fs::write(&out, serde_json::to_string_pretty(&js).unwrap()).expect("write out");
+    // a run cut short by the watchdog: the report holds what was found until then; exit status 97 tells the check script
+    if STOP_FLAG.load(std::sync::atomic::Ordering::SeqCst) { std::process::exit(97); }
 }
